@@ -1,6 +1,10 @@
 package world
 
-import sdk "github.com/cosmos/cosmos-sdk/types"
+import (
+	sdk "github.com/cosmos/cosmos-sdk/types"
+
+	mhubtypes "github.com/MinterTeam/mhub2/module/x/mhub2/types"
+)
 
 // helpers for drivers that live outside this package (the Minter loop driver)
 
@@ -17,3 +21,42 @@ func DecScaled(d sdk.Dec, scale int64) interface{} { return decScaled(d, scale) 
 func HolderAddr(n *Names, name string) string      { return holderAddr(n, name) }
 
 func (w *World) HolderName(addr string) string { return w.holderName(addr) }
+
+// Summary is a cheap projection for bulk scenarios (hundreds of pool entries): per external chain the size of the
+// pool, the highest fee waiting per token and, per batch, [nonce, token, number of transfers, lowest fee, sequence].
+func (w *World) Summary() J {
+	ctx := w.Ctx()
+	out := J{}
+	for _, chain := range w.Cfg.Chains {
+		if chain == "hub" {
+			continue
+		}
+		cid := mhubtypes.ChainID(chain)
+		poolmax := J{}
+		pool := 0
+		var all []*mhubtypes.SendToExternal
+		w.K.Mhub2.IterateUnbatchedSendToExternals(ctx, cid, func(s *mhubtypes.SendToExternal) bool { all = append(all, s); return false })
+		for _, ste := range all {
+			pool++
+			tok := w.ExtTokenName(chain, ste.Token.ExternalTokenId)
+			f := ste.Fee.Amount.Int64()
+			if cur, ok := poolmax[tok]; !ok || f > cur.(int64) {
+				poolmax[tok] = f
+			}
+		}
+		bats := []interface{}{}
+		w.K.Mhub2.IterateOutgoingTxsByType(ctx, cid, mhubtypes.BatchTxPrefixByte, func(_ []byte, otx mhubtypes.OutgoingTx) bool {
+			b := otx.(*mhubtypes.BatchTx)
+			minFee := int64(-1)
+			for _, t := range b.Transactions {
+				if f := t.Fee.Amount.Int64(); minFee < 0 || f < minFee {
+					minFee = f
+				}
+			}
+			bats = append(bats, []interface{}{b.BatchNonce, w.ExtTokenName(chain, b.ExternalTokenId), len(b.Transactions), minFee, b.Sequence})
+			return false
+		})
+		out[chain] = J{"pool": pool, "poolmax": poolmax, "bats": bats}
+	}
+	return out
+}
